@@ -89,6 +89,17 @@ func (mi *modInst) request(point int, req *bfe_basic.Request) (int, *bfe_http.Re
 	return mi.cbs.GetHandlerList(point).FilterRequest(req)
 }
 
+// requestPoints runs the request-side callback points in bfe_server's order until a
+// filter returns something other than GoOn.
+func (mi *modInst) requestPoints(req *bfe_basic.Request) int {
+	for _, pt := range []int{bfe_module.HandleBeforeLocation, bfe_module.HandleFoundProduct, bfe_module.HandleAfterLocation} {
+		if ret, _ := mi.request(pt, req); ret != bfe_module.BfeHandlerGoOn {
+			return ret
+		}
+	}
+	return bfe_module.BfeHandlerGoOn
+}
+
 func (mi *modInst) response(point int, req *bfe_basic.Request, res *bfe_http.Response) int {
 	return mi.cbs.GetHandlerList(point).FilterResponse(req, res)
 }
